@@ -130,8 +130,10 @@ def gen_cases(ctx):
     for et, ms in [("TRI3", 3.4), ("QUAD4", 3.4), ("TRI6", 5.0), ("QUAD8", 5.0), ("TRI10", 5.0), ("QUAD9", 5.0)]:
         meshes.append(("2d", {"elemType": et, "ms": ms, "organised": bool(rng.random() < 0.3)}))
     meshes.append(("2d", {"elemType": "TRI3", "ms": rng.choice([2.0, 2.5, 3.0])}))
-    for et in ["TETRA4", "HEXA8", "PRISM6"] + ([] if quick else ["TETRA10", "PRISM15", "HEXA20"]):
-        meshes.append(("3d", {"elemType": et, "ms": 2.0, "layers": rng.choice([1, 2]), "organised": et.startswith("HEXA")}))
+    # quadratic 3-D types: one of them in the quick rotation too (ghost layer through mid-side nodes, >= 3 parts)
+    for et in ["TETRA4", "HEXA8", "PRISM6"] + ([rng.choice(["TETRA10", "PRISM15", "HEXA20"])] if quick else ["TETRA10", "PRISM15", "HEXA20"]):
+        coarse = quick and et in ("TETRA10", "PRISM15", "HEXA20")
+        meshes.append(("3d", {"elemType": et, "ms": 4.0 if coarse else 2.0, "layers": 1 if coarse else rng.choice([1, 2]), "organised": et.startswith("HEXA")}))
     # several main-dimension groups
     mixed = [("mixed2d", {"w": 5, "ms": 5}), ("mixed2d", {"w": rng.choice([3, 5, 7]), "ms": rng.choice([3.4, 2.5])}),
              ("mixed3d", {"w": 3, "ms": 2.0, "layers": 1})]
@@ -140,7 +142,7 @@ def gen_cases(ctx):
         mixed += [("mixed3d", {"w": 2, "ms": 1.5, "layers": 2})]
     # scaled twins: the same meshes with the mesher's length coefficient 2^-20 (~1e-6) and 2^10: the partition
     # arrays are coordinate-free, the K rows / energies / reactions are compared relative to their own scale
-    twins = [(k, dict(p_, coef=cf)) for (k, p_), cf in zip([meshes[0], mixed[0], meshes[-1]], [2.0 ** -20, 2.0 ** 10, 2.0 ** -20])]
+    twins = [(k, dict(p_, coef=cf)) for (k, p_), cf in zip([meshes[0], mixed[0], meshes[-2]], [2.0 ** -20, 2.0 ** 10, 2.0 ** -20])]
     if not quick:
         twins += [(k, dict(p_, coef=2.0 ** -30)) for k, p_ in (meshes[1], mixed[-1])]
     cases = []
@@ -150,6 +152,8 @@ def gen_cases(ctx):
             nps = sorted(set([1, rng.choice([2, 3]), rng.choice([4, 5, 6]), rng.choice([7, 8, 9, 10, 11, 12])]))
             if kind.startswith("mixed"):
                 nps = sorted(set(nps + [3, 4]))
+            if params.get("elemType") in ("TETRA10", "PRISM15", "HEXA20"):
+                nps = [3, rng.choice([4, 5])]        # quick: a coarse quadratic 3-D mesh, >= 3 parts
             if "coef" in params:
                 nps = [rng.choice([2, 3]), rng.choice([4, 5])]
         else:
